@@ -202,16 +202,26 @@ def run_hypothesis(rep, strategy, body, max_examples, label="", describe=None, s
     import hypothesis
     from hypothesis import HealthCheck, Phase, given, settings
 
-    state = {"last": None, "failed": False}
+    state = {"last": None, "first": None, "best": None, "runs_after": 0, "t_fail": None}
+    SHRINK_RUNS, SHRINK_SECONDS = 600, 25.0
 
     def wrapped(case):
         state["last"] = case
+        if state["first"] is not None:
+            # bounded shrinking: once the budget is used up every further candidate "passes",
+            # so the shrinker stops; the verdict is unaffected (the failure is already recorded)
+            state["runs_after"] += 1
+            if state["runs_after"] > SHRINK_RUNS or time.time() - state["t_fail"] > SHRINK_SECONDS:
+                return
         try:
             body(case)
         except Failure as f:
             if rep.known_hit(f.signature):
                 return
-            state["failed"] = True
+            if state["first"] is None:
+                state["first"] = (case, f)
+                state["t_fail"] = time.time()
+            state["best"] = (case, f)
             rep.frozen = True
             raise
 
@@ -219,13 +229,29 @@ def run_hypothesis(rep, strategy, body, max_examples, label="", describe=None, s
     test = hypothesis.seed(rep.seed)(test)
     test = settings(max_examples=max_examples, database=None, deadline=None, derandomize=False,
                     suppress_health_check=list(HealthCheck), report_multiple_bugs=False,
-                    phases=[Phase.generate, Phase.shrink, Phase.explain][:2], print_blob=False)(test)
+                    phases=[Phase.generate, Phase.shrink], print_blob=False)(test)
     try:
         test()
     except Failure as f:
         case = state["last"]
         rep.frozen = False
         rep.violation(f.signature, describe(case) if describe else case, f.message)
+        return True
+    except hypothesis.errors.Flaky:
+        # The failure was observed against the real code but does not reproduce from the
+        # shrunk case alone: it depends on process state left by earlier cases (e.g. the
+        # buffer pool).  Report the case on which it was first seen.
+        rep.frozen = False
+        exhausted = state["runs_after"] > SHRINK_RUNS or (state["t_fail"] and time.time() - state["t_fail"] > SHRINK_SECONDS)
+        case, f = state["best"] if exhausted else state["first"]
+        d = describe(case) if describe else case
+        note = ""
+        if not exhausted:
+            if isinstance(d, dict):
+                d = dict(d)
+                d["_history_dependent"] = True
+            note = "[history-dependent: seen after earlier cases in the same process] "
+        rep.violation(f.signature, d, note + f.message)
         return True
     finally:
         rep.frozen = False
